@@ -968,12 +968,12 @@ def parse_qsl(qs, keep_blank_values=True, encoding=DEFAULT_ENCODING):
     for pair in pairs:
         if not pair:
             continue
-        key, _, value = pair.partition('=')
+        key, sep, value = pair.partition('=')
         if not value:
-            if keep_blank_values:
-                value = None
-            else:
+            if not keep_blank_values:
                 continue
+            if not sep:
+                value = None
         key = unquote(key.replace('+', ' '))
         if value:
             value = unquote(value.replace('+', ' '))
